@@ -473,7 +473,10 @@ func (r *Run) pubRaw(ctx context.Context, who string, ti int, data []byte, attrs
 	if err != nil {
 		return nil, err
 	}
-	id := resp.(*pubsubpb.PublishResponse).MessageIds[0]
+	id, v := oneMessageID(resp)
+	if v != nil {
+		return func() *Violation { return v }, nil
+	}
 	mt := r.M.LiveTopic(name)
 	return func() *Violation {
 		m := r.M.Publish(mt, id, data, attrs, key, t0, t1)
